@@ -33,6 +33,7 @@ func main() {
 	go func() {
 		defer close(colinearDone)
 		sec2DColinear(r)
+		sec2DColinearCurved(r)
 	}()
 	splitDone := make(chan struct{})
 	go func() {
